@@ -65,6 +65,8 @@ def gen_histories(ctx, binp, pid):
     ms = l2gen.machines(binp)
     q = ctx.quick
     nworld, per_world, nops = (24, 5, 30) if q else (160, 12, 45)
+    if pid == "C02":            # balloons histories are cheap: more worlds
+        nworld, per_world, nops = (60, 5, 32) if q else (300, 12, 45)
     hs = []
     pols = policies_for(pid)
     worlds = []
@@ -85,7 +87,13 @@ def gen_histories(ctx, binp, pid):
             disorder = 0.0
             if pid == "C14":
                 disorder = 0.25 if j % 2 == 0 else 0.08
-            hs.append(l2gen.lifecycle_history(w, rnd, nops, disorder=disorder, fuzz=0.6 if pid == "C14" else 0.0))
+            if pid in ("C01", "C03", "C09") and w["policy"] == "ta" and j % 3 == 2:
+                hs.append(l2gen.fill_history(w, rnd, nops + 10))
+                continue
+            # valid configuration changes in the middle of histories (C09 compares with the pristine state of the
+            # configuration in force, so it only gets identical re-deliveries)
+            rc = l2gen.valid_configs(w, rnd) if pid in ("C01", "C03", "C04", "C05", "C12") else None
+            hs.append(l2gen.lifecycle_history(w, rnd, nops, disorder=disorder, fuzz=0.6 if pid == "C14" else 0.0, reconf_cfgs=rc))
     return hs
 
 
